@@ -169,8 +169,10 @@ def _shape2(t, sa, sb):
     k = t[0]
     if k in ("matmul", "Product"):
         return (sa[0], sb[1]) if sa[1] == sb[0] else None
-    if k in ("add", "sub", "Sum"):
+    if k in ("add", "sub", "Sum", "pysum"):
         return sa if sa == sb else None
+    if k == "block_diag":
+        return (sa[0] + sb[0], sa[1] + sb[1])
     if k == "kron":
         return (sa[0] * sb[0], sa[1] * sb[1])
     if k == "kronsum":
